@@ -20,14 +20,15 @@ def LoadOk (versions : String → Nat) (l : Load) (out : String × CodeDesc) : P
 
 /-- **for every history of runs** over one cache directory — any subsets of hooked modules, any
     typecheckers, any import orders with imports nested inside hooked modules, source edits in
-    between — with the cache-name patch confined to the module's own `get_code`, every load
-    executes the code its current source and the current hook configuration call for -/
-theorem C18_history (c : Cache) (hc : CacheInv c) (runs : List ((String → Nat) × List Load)) :
+    between, runs that write bytecode and runs that only read it (`-B`) — with the cache-name patch
+    confined to the module's own `get_code` (and applied in every run), every load executes the code
+    its current source and the current hook configuration call for -/
+theorem C18_history (c : Cache) (hc : CacheInv c) (runs : List Run) :
     let r := runHistory .getCode c runs
     CacheInv r.1 ∧ r.2.length = runs.length ∧
     ∀ i (hi : i < runs.length) (hi' : i < r.2.length),
-      (r.2[i]).length = (runs[i]).2.length ∧
-      ∀ p ∈ (runs[i]).2.zip (r.2[i]), LoadOk (runs[i]).1 p.1 p.2 :=
+      (r.2[i]).length = (runs[i]).loads.length ∧
+      ∀ p ∈ (runs[i]).loads.zip (r.2[i]), LoadOk (runs[i]).versions p.1 p.2 :=
   history_correct c hc runs
 
 /-- the empty cache satisfies the invariant -/
@@ -35,9 +36,9 @@ theorem C18_init : CacheInv [] := cacheInv_nil
 
 /-- the tag carries the typechecker key: entries of different typecheckers or of the plain loader
     never collide -/
-theorem C18_tags (l₁ l₂ : Load) (h : l₁.hookedWith ≠ l₂.hookedWith) :
-    tagFor .getCode l₁ ≠ tagFor .getCode l₂ :=
-  tags_distinct l₁ l₂ h
+theorem C18_tags (w₁ w₂ : Bool) (l₁ l₂ : Load) (h : l₁.hookedWith ≠ l₂.hookedWith) :
+    tagFor .getCode w₁ l₁ ≠ tagFor .getCode w₂ l₂ :=
+  tags_distinct w₁ w₂ l₁ l₂ h
 
 /-- the source read today confines the patch to `get_code` and puts the typechecker hash into the tag -/
 theorem C18_generated_good :
@@ -51,8 +52,19 @@ theorem C18_execmodule_violates :
     let v : String → Nat := fun _ => 1
     let run1 : List Load := [⟨"a", some "k", none⟩, ⟨"b", none, some "k"⟩]
     let run2 : List Load := [⟨"a", some "k", none⟩, ⟨"b", some "k", some "k"⟩]
-    ((runHistory .execModule [] [(v, run1), (v, run2)]).2.getD 1 []).getD 1 ("", ⟨0, none⟩) = ("b", ⟨1, none⟩) ∧
-    ((runHistory .getCode [] [(v, run1), (v, run2)]).2.getD 1 []).getD 1 ("", ⟨0, none⟩) = ("b", ⟨1, some "k"⟩) := by
+    ((runHistory .execModule [] [⟨v, true, run1⟩, ⟨v, true, run2⟩]).2.getD 1 []).getD 1 ("", ⟨0, none⟩) = ("b", ⟨1, none⟩) ∧
+    ((runHistory .getCode [] [⟨v, true, run1⟩, ⟨v, true, run2⟩]).2.getD 1 []).getD 1 ("", ⟨0, none⟩) = ("b", ⟨1, some "k"⟩) := by
+  decide
+
+/-- skipping the patch in a run that writes no bytecode is observable: run 1 imports `a` un-hooked
+    and caches it; run 2 hooks `a` under `-B` — it then looks under the interpreter's own name and
+    executes the plain bytecode of run 1 -/
+theorem C18_nowrite_skip_violates :
+    let v : String → Nat := fun _ => 1
+    let run1 : Run := ⟨v, true, [⟨"a", none, none⟩]⟩
+    let run2 : Run := ⟨v, false, [⟨"a", some "k", none⟩]⟩
+    ((runHistory .getCodeIfWriting [] [run1, run2]).2.getD 1 []).getD 0 ("", ⟨0, none⟩) = ("a", ⟨1, none⟩) ∧
+    ((runHistory .getCode [] [run1, run2]).2.getD 1 []).getD 0 ("", ⟨0, none⟩) = ("a", ⟨1, some "k"⟩) := by
   decide
 
 end JV
